@@ -30,6 +30,7 @@ EncodeTags(e, rd) ==
      \o (IF r.kind = "error" /\ AZ!MustAccept(e.content, pct, req) THEN <<"reject-representable">>
          ELSE IF r.kind = "ok" /\ AZ!MustReject(nb, pct, req) THEN <<"accept-unrepresentable">> ELSE <<>>)
      \o (IF r.kind \in {"ok", "error"} /\ ~r.inputsame THEN <<"input-modified">> ELSE <<>>)
+     \o (IF r.kind = "ok" /\ req # 0 /\ \E a \in auto : a.k = <<e.content, pct>> /\ r.w < a.n THEN <<"auto-not-minimal">> ELSE <<>>)
      \o (IF r.kind # "ok" THEN <<>>
          ELSE (IF ~HasPx(e) THEN <<>>
                ELSE (IF ~rd.ok THEN <<"structure-" \o rd.why>>
@@ -37,7 +38,7 @@ EncodeTags(e, rd) ==
                           \o (IF req < 0 /\ ~(rd.compact /\ rd.layers = -req) THEN <<"layers-not-honoured">> ELSE <<>>)
                           \o (IF req > 0 /\ ~(~rd.compact /\ rd.layers = req) THEN <<"layers-not-honoured">> ELSE <<>>)
                           \o (IF (rd.nw - rd.nd) * rd.w < (rd.used * pct) \div 100 THEN <<"ecc-percent">> ELSE <<>>)
-                          \o (IF req # 0 /\ \E a \in auto : a.k = <<e.content, pct>> /\ r.w < a.n THEN <<"auto-not-minimal">> ELSE <<>>))
+                    )
                     \o (IF r.content # e.content THEN <<"content">> ELSE <<>>)
                     \o ContractTags(e, r.w, r.w, "Aztec", 2)
                     \o (IF \E x \in memo : x.k = PatternKey(e) /\ x.v # r.pxdigest THEN <<"pattern-depends-on-scheme-or-history">> ELSE <<>>)))
